@@ -41,7 +41,31 @@ func (fi *FuncInfo) prove(c *Ctx, goals []lin.Con) Outcome {
 // ctxBefore: facts valid immediately before instruction in (dominating
 // conditions; definitions are added on demand by Lin).
 func (fi *FuncInfo) ctxBefore(in ssa.Instruction) *Ctx {
-	return fi.CtxAt(in.Block())
+	c := fi.CtxAt(in.Block())
+	c.successIn(in.Block(), in)
+	return c
+}
+
+// Success facts: every index/slice/fixed-width-accessor instruction that is
+// executed before the program point on every path (it sits in a dominating
+// block, or earlier in the same block) did not panic, so its own bounds held.
+// This keeps one missing guard from being reported again at every later site.
+func (c *Ctx) successIn(b *ssa.BasicBlock, upto ssa.Instruction) {
+	for _, in := range b.Instrs {
+		if in == upto {
+			break
+		}
+		switch y := in.(type) {
+		case *ssa.IndexAddr, *ssa.Index, *ssa.Slice, *ssa.Lookup:
+			if goals, ok := c.FI.BoundsGoals(c, y); ok {
+				c.add(goals...)
+			}
+		case *ssa.Call:
+			if pre, ok := StdPre[staticName(y.Common())]; ok {
+				c.add(lin.GE(c.LenOf(y.Common().Args[pre.Arg]), lin.K(pre.Min)))
+			}
+		}
+	}
 }
 
 // BoundsGoals returns the in-bounds goals of an index/slice instruction.
@@ -92,6 +116,9 @@ func (fi *FuncInfo) BoundsGoals(c *Ctx, in ssa.Instruction) (goals []lin.Con, ok
 func (w *World) ProveBounds(in ssa.Instruction) Outcome {
 	fi := w.Info(in.Parent())
 	c := fi.ctxBefore(in)
+	for _, ax := range w.Axioms {
+		ax(c, in)
+	}
 	goals, ok := fi.BoundsGoals(c, in)
 	if !ok {
 		return Outcome{Proved: true, Skipped: true}
@@ -217,7 +244,7 @@ func (w *World) ConsumedObligations(fn *ssa.Function) (kind string, obls []RetOb
 			continue
 		}
 		ord++
-		c := fi.CtxAt(b)
+		c := fi.ctxBefore(ret)
 		errV := ret.Results[len(ret.Results)-1]
 		if errDefinitelyNonNil(c, errV) {
 			continue
@@ -280,3 +307,25 @@ func (w *World) AllocBound(n ssa.Value, at ssa.Instruction, inputs []ssa.Value) 
 	}
 	return Outcome{Proved: false, Failed: fmt.Sprintf("%s <= 2^17  or  <= 8·Σlen(inputs)+64", valName(n)), Facts: c.FactStrings(g, 16)}
 }
+
+// AddFact lets a rule-level conditional axiom add a fact (fact 11).
+func (c *Ctx) AddFact(cons ...lin.Con) { c.add(cons...) }
+
+// BoolKnown reports the known truth value of a boolean SSA value here.
+func (c *Ctx) BoolKnown(v ssa.Value) (truth, known bool) {
+	t, ok := c.boolTrue[v]
+	return t, ok
+}
+
+// StaticName exposes the resolved callee name of a call.
+func StaticName(cc *ssa.CallCommon) string { return staticName(cc) }
+
+// ProveArgLen proves len(arg) >= min at a call site (fixed-size helper contracts).
+func (w *World) ProveArgLen(call *ssa.Call, arg ssa.Value, min int64) Outcome {
+	fi := w.Info(call.Parent())
+	c := fi.ctxBefore(call)
+	return fi.prove(c, []lin.Con{lin.GE(c.LenOf(arg), lin.K(min))})
+}
+
+// IsByteSeq reports whether t is string or []byte.
+func IsByteSeq(t types.Type) bool { return isByteSeq(t.Underlying()) }
